@@ -93,13 +93,23 @@ def replay_errors(model, cls="SinglePhaseReservoir", which="length"):
     return True, {"what": f"{which}: accepted without an error"}
 
 
-def replay_interp(model, cls="SinglePhaseReservoir", nx=4, nt=3):
+def replay_interp(model, cls="SinglePhaseReservoir", nx=4, nt=3, rerun=None):
     import numpy as np
     t = np.cumsum([float(model.get("t0") or 0.0)] + [float(model.get(f"dt{k}") or 0.01 * k) for k in range(1, nt)])
     r = _real(cls, nx)
+    if rerun:
+        # an earlier run on the same object (shifted and stretched grid), with the calls named in `rerun` made after it
+        t_old = 2.5 * t + 1.0
+        r.simulate(t_old)
+        for call in rerun:
+            getattr(r, call)()
     r.simulate(t)
-    rf = r.recovery_factor()
-    f = r.recovery_factor_interpolator()
+    if rerun:
+        f = r.recovery_factor_interpolator()     # asked for first, as a fitting loop does
+        rf = r.recovery_factor()
+    else:
+        rf = r.recovery_factor()
+        f = r.recovery_factor_interpolator()
     problems = []
     for k in range(nt):
         if abs(float(f(t[k])) - rf[k]) > 1e-12 * (1 + abs(rf[k])):
@@ -205,11 +215,13 @@ def job_before(job, cls):
                                                                  "replayer": "replay_errors", "replayer_kwargs": {"cls": cls, "which": which}}, None)
 
 
-def job_interp(job, cls, nx, nt):
+def job_interp(job, cls, nx, nt, rerun=None):
+    """`rerun`: the object already carried an earlier run on another grid (plus the recovery calls named) when the run
+    under test was made; the interpolator is then requested before recovery_factor()."""
     mod = load_reservoir()
     job.encoded(mod, "IdealReservoir.recovery_factor_interpolator", "IdealReservoir.recovery_factor")
     job.stub("scipy.interpolate.interp1d: exact piecewise-linear model")
-    tag = f"{cls}[nx={nx},nt={nt}]"
+    tag = f"{cls}[nx={nx},nt={nt}{',after an earlier run + ' + '+'.join(rerun) if rerun else ''}]"
     q = fresh("q")
 
     def run():
@@ -217,12 +229,21 @@ def job_interp(job, cls, nx, nt):
         SS.reset_names()
         t, _ = times(nt)
         r = _mk(mod, cls, nx, FluidStub() if cls != "IdealReservoir" else None)
-        r.simulate(t)
-        rf = r.recovery_factor()
-        f = r.recovery_factor_interpolator()
+        if rerun:
+            t_old, _ = times(nt, prefix="u")
+            r.simulate(t_old)
+            for call in rerun:
+                getattr(r, call)()
+            r.simulate(t)
+            f = r.recovery_factor_interpolator()
+            rf = r.recovery_factor()
+        else:
+            r.simulate(t)
+            rf = r.recovery_factor()
+            f = r.recovery_factor_interpolator()
         return t.d, rf.d, [f(v) for v in t.d], f(q)
 
-    rp = (replay_interp, {"cls": cls, "nx": nx, "nt": nt})
+    rp = (replay_interp, {"cls": cls, "nx": nx, "nt": nt, "rerun": list(rerun) if rerun else None})
     for k, pr in enumerate(paths(job, run, [], max_paths=64)):
         if pr.exc is not None:
             job.errors.append(f"{tag} interp raised {pr.exc!r}")
@@ -245,6 +266,8 @@ def jobs(tier):
             out.append((f"shift-{cls[:6]}-{nx}-{nt}", lambda j, c=cls, a=nx, b=nt: job_shift(j, c, a, b)))
         out.append((f"before-{cls[:6]}", lambda j, c=cls: job_before(j, c)))
         out.append((f"interp-{cls[:6]}", lambda j, c=cls: job_interp(j, c, 3, 3)))
+        out.append((f"interp-rerun-{cls[:6]}", lambda j, c=cls: job_interp(j, c, 3, 3, rerun=("recovery_factor_interpolator",))))
+        out.append((f"interp-rerun2-{cls[:6]}", lambda j, c=cls: job_interp(j, c, 3, 3, rerun=("recovery_factor", "recovery_factor_interpolator"))))
     for nx, nt in cfg[:2]:
         out.append((f"schedule-{nx}-{nt}", lambda j, a=nx, b=nt: job_schedule(j, a, b)))
     out.append(("schedule-inttime-3-3", lambda j: job_schedule(j, 3, 3, "i8")))
